@@ -113,12 +113,65 @@ var c19CLSpellings = [][]string{
 	{"+5"}, {"-0"}, {"+0"}, {"-5"}, {" 5"}, {"5 "}, {"0x5"}, {""}, {"5,5"}, {"5", "5"}, {"5", "6"},
 }
 
+// Multi-valued keys of http.Request.Header. A header map assigns a LIST of values to a key, and
+// the request writer treats some keys specially (RFC 9114 4.2 / the net/http Transport conventions):
+// TE is filtered per VALUE (only "trailers" may be sent), User-Agent per KEY (the first value, if
+// not empty), the connection-specific keys and Host / Content-Length per key (never sent). The
+// single-valued atoms above cannot tell a per-value rule from a per-key one, nor a rule that looks
+// at the first value only from one that looks at all of them. So:
+//   - TE: every list of 0, 2 and 3 values over {"trailers", "gzip"} (the two lists of one value are
+//     above): the allowed and the forbidden value in every position and combination; plus the key
+//     spelled "te" / "TE" (a header map need not be canonical; the rules are case-insensitive), a
+//     third value ("deflate"), a value that is itself a list, a capitalised "Trailers", an empty value;
+//   - User-Agent: no value, two values, an empty value in the first / second position;
+//   - a key without values, a key with three values (a repetition among them), and multi-valued
+//     connection-specific / Accept-Encoding / Cookie keys.
+// All of them are valid net/http messages (a key without values stands for no field).
+var c19ReqMultiAtoms = func() []c19HdrAtom {
+	var l []c19HdrAtom
+	add := func(key string, vals ...string) {
+		l = append(l, c19HdrAtom{ID: fmt.Sprintf("%s=%q", key, vals), Key: key, Vals: vals})
+	}
+	te := []string{"trailers", "gzip"}
+	add("Te")
+	for _, a := range te {
+		for _, b := range te {
+			add("Te", a, b)
+		}
+	}
+	for _, a := range te {
+		for _, b := range te {
+			for _, c := range te {
+				add("Te", a, b, c)
+			}
+		}
+	}
+	add("te", "trailers", "gzip")
+	add("TE", "gzip", "trailers")
+	add("Te", "trailers", "deflate")
+	add("Te", "trailers, gzip")
+	add("Te", "Trailers")
+	add("Te", "trailers", "")
+	add("User-Agent")
+	add("User-Agent", "ua/1", "ua/2")
+	add("User-Agent", "", "ua/2")
+	add("User-Agent", "ua/1", "")
+	add("X-A")
+	add("X-A", "1", "2", "1")
+	add("Connection", "close", "keep-alive")
+	add("Accept-Encoding", "br", "gzip")
+	add("Cookie", "a=1", "b=2", "c=3")
+	return l
+}()
+
 func init() {
 	for _, vals := range c19CLSpellings {
 		at := c19HdrAtom{ID: fmt.Sprintf("content-length=%q", vals), Key: "Content-Length", Vals: vals}
 		c19ReqHdrAtoms = append(c19ReqHdrAtoms, at)
 		c19RspHdrAtoms = append(c19RspHdrAtoms, at)
 	}
+	// (appended last: the indices recorded in older replay files keep their meaning)
+	c19ReqHdrAtoms = append(c19ReqHdrAtoms, c19ReqMultiAtoms...)
 }
 
 // c19CLClass classifies the Content-Length values a message carries (RFC 9110, 8.6:
@@ -359,7 +412,10 @@ func (m c19ReqMsg) build() (*http.Request, bool) {
 
 // c19ReqExpect: the fields the message has, as an HTTP/3 field section (RFC 9114 4.3.1, the
 // net/http Transport conventions for Host, User-Agent, Accept-Encoding and Content-Length).
-func (m c19ReqMsg) expect() (fs []c19Field, pathOK bool) {
+// A User-Agent key with several values has two readings the statement does not choose between:
+// the net/http one (at most one User-Agent: the first value, none if that is empty) and the
+// literal one (every value is a field); allValuesUA selects the literal one.
+func (m c19ReqMsg) expect(allValuesUA bool) (fs []c19Field, pathOK bool) {
 	req, _ := m.build()
 	host := req.Host
 	if host == "" {
@@ -400,6 +456,9 @@ func (m c19ReqMsg) expect() (fs []c19Field, pathOK bool) {
 			continue
 		case "user-agent":
 			hasUA = true
+			if allValuesUA && len(vv) > 1 {
+				break
+			}
 			if len(vv) == 0 || vv[0] == "" {
 				continue
 			}
@@ -512,7 +571,7 @@ func c19JudgeReqWire(m c19ReqMsg, req *http.Request, valid bool, werr error, wir
 		}
 		return class + ": written, parser accepts", nil
 	}
-	want, pathOK := m.expect()
+	want, pathOK := m.expect(false)
 	explore.Must(pathOK, "writer accepted a message whose :path the model cannot derive: %v", m)
 	if err != nil {
 		emitted := c19DecodeAll(block)
@@ -527,6 +586,9 @@ func c19JudgeReqWire(m c19ReqMsg, req *http.Request, valid bool, werr error, wir
 		// (accepted => well-formed) and (emitted => accepted) leave no room for this
 		return "", explore.Failf(pfx+"/emits-malformed-accepted:"+cl+at,
 			"the request writer emits a field section that violates %v and the parser accepts it; emitted %v", c19JudgeAll(c19Req, c19DecodeAll(block)), c19Shown(c19DecodeAll(block)))
+	}
+	if want2, _ := m.expect(true); c19RenderRequest(got) == c19ModelRequest(c19ViewOf(want2)) {
+		want = want2 // (differs from want only for a User-Agent key with several values)
 	}
 	if g, w := c19RenderRequest(got), c19ModelRequest(c19ViewOf(want)); g != w {
 		return "", explore.Failf(pfx+"/fields-differ:"+c19DiffTag(g, w)+at,
@@ -557,6 +619,19 @@ func c19JudgeReqWire(m c19ReqMsg, req *http.Request, valid bool, werr error, wir
 	}
 	if vals := req.Header["Content-Length"]; len(vals) > 0 {
 		out += ", Header Content-Length (" + c19CLClass(vals) + ") not sent"
+	}
+	for _, a := range m.Hdr {
+		// a key with no or several values: how many of them are fields of the message (part
+		// writer-request only: the connection scenarios multiply the classes of their streams)
+		if at := c19ReqHdrAtoms[a]; where == "" && at.Key != "" && len(at.Vals) != 1 && !strings.EqualFold(at.Key, "Content-Length") {
+			n := 0
+			for _, f := range want {
+				if f.N == strings.ToLower(at.Key) {
+					n++
+				}
+			}
+			out += fmt.Sprintf(", %s: %d of %d values sent", strings.ToLower(at.Key), n, len(at.Vals))
+		}
 	}
 	// trailers
 	wantT := m.expectTrailers()
@@ -1078,7 +1153,7 @@ func c19LatticePart[M any](name, rule string, lattice func(e explore.Env) []M, r
 func c19WriterParts() []explore.Part {
 	return []explore.Part{
 		c19LatticePart("writer-request",
-			"full product of method x proto x URL form x Host override x header-atom sets (<=1 atom quick, <=2 thorough; 39 atoms, 17 of them Header[Content-Length] spellings) x compression x body/ContentLength x Trailer; each message written by the real requestWriter through RequestStream.sendRequestHeader/sendRequestTrailer and parsed back by frameParser + qpack decoder + requestFromHeaders/decodeTrailers",
+			"full product of method x proto x URL form x Host override x header-atom sets (<=1 atom quick, <=2 thorough; 67 atoms, 17 of them Header[Content-Length] spellings, 28 of them keys with no / two / three values: every TE list of <= 3 values over {trailers, gzip}, User-Agent, connection-specific, Cookie, plain keys) x compression x body/ContentLength x Trailer; each message written by the real requestWriter through RequestStream.sendRequestHeader/sendRequestTrailer and parsed back by frameParser + qpack decoder + requestFromHeaders/decodeTrailers",
 			c19ReqLattice, c19RunReqMsg, c19ReqMsg.human),
 		c19LatticePart("writer-response",
 			"full product of status x early hints x HEAD x header-atom sets (<=2 atoms quick, <=3 thorough; 32 atoms, 18 of them handler-set Content-Length spellings) x Date x body length 0/5/10 x trailer style; each handler script run on the real responseWriter and read back by the real RequestStream.ReadResponse + body Read (-> decodeTrailers)",
